@@ -34,6 +34,9 @@ type regConn struct {
 	Invalid int `json:"keyless_heartbeats_first,omitempty"`
 	// NoRegister: the register message is never sent (the connection never joins)
 	NoRegister bool `json:"no_register,omitempty"`
+	// Coalesce: the first message and the first heartbeat after it leave in ONE write (the server's first read on
+	// the connection holds two frames)
+	Coalesce bool `json:"first_two_frames_in_one_write,omitempty"`
 }
 
 type regCall struct {
@@ -156,6 +159,20 @@ func regMake(scn regScn) func() (func(), any) {
 							break // the register message stands for the first message
 						}
 						ser++
+						if c.Coalesce && k == 0 && c.HB >= 1 && !scn.RegKey {
+							two := append(hbFrame(false, c.Phone, ser), hbFrame(false, c.Phone, ser+1)...)
+							r.addSent(i, ser)
+							ser++
+							r.addSent(i, ser)
+							p.Send(two)
+							k++
+							nrep += 2
+							p.Expect(nrep)
+							if p.C.Closed() {
+								return
+							}
+							continue
+						}
 						p.Send(hbFrame(false, c.Phone, ser))
 						r.addSent(i, ser)
 						nrep++
@@ -443,6 +460,11 @@ func c11Scenarios(thorough bool) []regScn {
 		n("refused-left-then-third", []regConn{c(A, 1, false, -1, -1), c(A, 0, false, -1, 0), c(A, 0, false, 1, -1)}, nil),
 		n("refused-then-owner-served", []regConn{c(A, 2, false, -1, -1), c(A, 0, false, -1, 0), c(B, 0, false, -1, -1)}, []regCall{{Key: A, AfterJoin: 0, AfterLeft: -1}}),
 	}
+	// the first read of a connection holds two frames
+	out = append(out,
+		n("first-read-two-frames", []regConn{{Phone: A, HB: 2, After: -1, AfterJoin: -1, Coalesce: true}}, []regCall{{Key: A, AfterJoin: 0, AfterLeft: -1}}),
+		n("first-read-two-frames-dup", []regConn{{Phone: A, HB: 1, After: -1, AfterJoin: -1, Coalesce: true}, {Phone: A, HB: 1, After: -1, AfterJoin: 0, Coalesce: true}}, nil),
+	)
 	// a custom key function (service.WithKeyFunc): the key comes from the register message only
 	dA := "dev-" + ref.PhoneString(ref.BCD(A, 6))
 	rk := func(s regScn) regScn { s.RegKey = true; return s }
@@ -473,7 +495,7 @@ type regCase struct {
 func init() {
 	vc.Register(&vc.Check{
 		ID: "C11", Level: "model_checking", SingleProc: true,
-		Rule: "10 (thorough 12) skeletons of <=6 registry events over <=3 connections and two keys (duplicate-key connect after/racing the owner's join, close then reconnect, close racing a duplicate, two keys, SendActiveMessage racing a leave / after a leave / to an absent key) plus 4 skeletons on a server configured with a custom key function (service.WithKeyFunc: only the register message yields a key; keyless heartbeats first, a duplicate, leave and rejoin, a connection that never gets a key and leaves while the owner is served), each under ALL schedules within the deviation bound (2 quick, 3 thorough); " +
+		Rule: "10 (thorough 12) skeletons of <=6 registry events over <=3 connections and two keys (duplicate-key connect after/racing the owner's join, close then reconnect, close racing a duplicate, two keys, SendActiveMessage racing a leave / after a leave / to an absent key, a connection whose first read holds two frames - alone and as the refused duplicate) plus 4 skeletons on a server configured with a custom key function (service.WithKeyFunc: only the register message yields a key; keyless heartbeats first, a duplicate, leave and rejoin, a connection that never gets a key and leaves while the owner is served), each under ALL schedules within the deviation bound (2 quick, 3 thorough); " +
 			"per execution the join/leave/route call-return history is checked for linearizability against a sequential key->connection map with porcupine, refused sockets must be closed, join/leave callbacks are counted, the owner's heartbeats must all be answered. Then EVERY thread interleaving (no preemption bound) of every skeleton with the default environment answers (timers fire when nothing else can run, first ready select case (moving on to the next when the same select is met again), writes succeed), using a cache of happens-before state keys: each state is expanded once, every state and transition is executed at least once (not every path: the linearizability of call/return intervals is decided by the bounded search, the cached search adds the state and transition oracles); the cache is validated per run by a self-test (cached search = every-schedule search on 20 programs that fail when a component of the key is removed) and by comparing a harness digest whenever a key is met again; the flag exhaustive refers to the deviation-bounded families; for the cached pass the counters unbounded_* say how many scenarios closed and how many stopped at the state limit (quick 20000 states, thorough 400000). Non-trivial = schedule with >=1 deviation",
 		Assumptions: []string{"call time of join = first read callback of the connection, of leave = its last earlier callback (intervals are enlarged, never shrunk, so no false alarm)",
 			"commands whose caller never returned are C13's subject and are left out of the history"},
